@@ -62,6 +62,9 @@ pub struct Model {
     live: Vec<Entry>,
     /// savepoints later than a released one: the property does not say whether they survive
     ambiguous: BTreeSet<String>,
+    /// the same savepoints with their snapshots: whether they are still alive is the engine's choice,
+    /// but a `ROLLBACK TO` one of them that *succeeds* must restore its snapshot
+    maybe: Vec<Entry>,
 }
 
 fn kinds_since(hist: &[String], from: usize) -> String {
@@ -97,6 +100,9 @@ impl Spec for C14Spec {
         let mut a: Vec<String> = DML.iter().map(|s| s.to_string()).collect();
         for n in NAMES {
             if m.ambiguous.contains(*n) {
+                if m.maybe.iter().any(|e| e.name == *n) {
+                    a.push(format!("ROLLBACK TO SAVEPOINT {}", n));
+                }
                 continue;
             }
             let live = m.live.iter().any(|e| e.name == *n);
@@ -128,6 +134,25 @@ impl Spec for C14Spec {
                 rep.violation(&[("kind", "savepoint_changed_data".into())], format!("`{}` changed table contents", op), case(hist));
             }
             m2.live.push(Entry { name: n.to_string(), snap: post_b, at: hist.len() });
+        } else if let Some(n) = op.strip_prefix("ROLLBACK TO SAVEPOINT ").filter(|n| m.maybe.iter().any(|e| e.name == *n)) {
+            // a savepoint created after one that was released since: the engine may have destroyed it
+            // (then this fails and nothing changes) or kept it (then it must restore its snapshot)
+            let e = m.maybe.iter().find(|e| e.name == n).unwrap();
+            if out.is_ok() {
+                if post_b != e.snap {
+                    let since = kinds_since(hist, e.at);
+                    rep.violation(
+                        &[("kind", "rollback_to_content".into()), ("undone", since), ("after_release_of_earlier_savepoint", "true".into())],
+                        format!("after `{}` (a savepoint the engine kept alive across the RELEASE of an earlier one) tables are {} but were {} when the savepoint was created", op, fmt_bags(&post_b), fmt_bags(&e.snap)),
+                        case(hist),
+                    );
+                }
+                return None; // which savepoints remain alive now is unspecified: the branch ends here
+            } else if pre_b != post_b {
+                rep.violation(&[("kind", "failed_rollback_to_changed_data".into())], format!("failed `{}` changed table contents", op), case(hist));
+                return None;
+            }
+            m2.maybe.retain(|x| x.name != n);
         } else if let Some(n) = op.strip_prefix("ROLLBACK TO SAVEPOINT ") {
             match m.live.iter().position(|e| e.name == n) {
                 Some(i) => {
@@ -151,6 +176,7 @@ impl Spec for C14Spec {
                         return None; // model and implementation have diverged
                     }
                     m2.live.truncate(i + 1); // s stays alive, later savepoints are destroyed
+                    m2.maybe.retain(|x| x.at <= e.at);
                     // ambiguous ones were all later than some released savepoint; if they were created
                     // after s they are destroyed now, otherwise still ambiguous: keep them excluded.
                 }
@@ -182,6 +208,7 @@ impl Spec for C14Spec {
                     }
                     for e in &m.live[i + 1..] {
                         m2.ambiguous.insert(e.name.clone());
+                        m2.maybe.push(e.clone());
                     }
                     m2.live.truncate(i);
                 }
@@ -202,6 +229,9 @@ impl Spec for C14Spec {
             // `at` matters only for the signature, not for futures
         }
         s.push('|');
+        for e in &m.maybe {
+            s.push_str(&format!("?{}@{};", e.name, crate::util::hash64(fmt_bags(&e.snap).as_bytes())));
+        }
         for a in &m.ambiguous {
             s.push_str(a);
             s.push(',');
